@@ -64,6 +64,10 @@ CHECKS["C07"] = ("Proofs.tla (term-level proof checker: refl/sym/trans/cong up t
          "every explanation returned for equal pool terms in every SlottedCC history is a valid proof of the queried equation whose leaves are the asserted equations with their justifications; a panic is a violation", "5 C07")
 NOTES_EXTRA["C07"] = ("TLC evaluates Proofs.tla on every recorded proof node; histories are the TLC states of the SlottedCC universes. Trusted: TLC, get_syn_expr as the "
                       "term reading of proof equations, the recorder. Rule-application leaves are not exercised (justified unions only).")
+CHECKS["C20"] = ("Threads.tla (thread-local slot tables, global symbol interner) + TLC: all interleavings of main history and noise thread with invariant Reproducible; every schedule replayed with real threads in a fresh process, transcript (incl. dump) compared byte for byte with the solo run",
+         "the main thread's transcript is identical under every interleaving with unrelated work in another thread and across fresh processes", "5 C20")
+NOTES_EXTRA["C20"] = ("TLC enumerates the schedules and checks the model's invariant; the Rust code is bound by executing every schedule. Trusted: TLC, the "
+                      "channel hand-shake, byte comparison of stdout. Address/hash-seed independence is only exercised (fresh processes).")
 PENDING = {}  # filled below for every property without a check yet
 
 man = {
